@@ -148,8 +148,20 @@ qb_rb_open_2(const char *name, size_t size, uint32_t flags,
 	 * ringbuffer.  This means we have to add both the 'margin' space used
 	 * to calculate if there is enough space for a new chunk as well as the '+1' that
 	 * prevents overlap of the read/write pointers */
+	/*
+	 * Chunk lengths and the ring's indices are 32 bit words: a ring they
+	 * cannot describe is refused, not silently made smaller.
+	 */
+	if (size > UINT32_MAX - QB_RB_CHUNK_MARGIN - 1) {
+		errno = EINVAL;
+		return NULL;
+	}
 	size += QB_RB_CHUNK_MARGIN + 1;
 	real_size = QB_ROUNDUP(size, page_size);
+	if (real_size < size || real_size > UINT32_MAX) {
+		errno = EINVAL;
+		return NULL;
+	}
 
 	shared_size =
 	    sizeof(struct qb_ringbuffer_shared_s) + shared_user_data_size;
